@@ -77,6 +77,16 @@ theorem resolver_errors :
     Gen.Config.propertyErrorReturns.length = 3 ∧
     Gen.Config.resolverErrorReturned = true ∧ Gen.Config.unregisteredTagSkipped = true := ⟨rfl, rfl, rfl, rfl, rfl⟩
 
+/-- `envTokenResolver` as `Model.lookupEnv` has it (round 6; read by what it returns on which path, see
+gen/area_config_env.go): the value of `os.LookupEnv(<the name>)` when that reports the variable as set, an error when it
+does not — on EVERY path: no second source (no scan of `os.Environ`, no `os.Getenv`, no `os.ExpandEnv`) answers for a
+name that is not set, so a variable whose name differs in letter case only is not the variable (`C17_env_exact`).
+Layout-independent: `if !ok { return "", err }; return val, nil`, an early `return v, nil` under `if v, found := …; found`
+and an if/else regenerate to the same two rows. -/
+theorem env_resolver_exact :
+    Gen.Config.envResolverPaths = ["found:value,nil", "missing:empty,error"] ∧
+    Gen.Config.envResolverOsCalls = ["os.LookupEnv"] := ⟨rfl, rfl⟩
+
 /-- `propertyTokenResolver` as `lookupProp` / `findProp` / `lineKV` have it: the argument is cut at the first `#`; the
 file is read line by line; only a line that contains `=` is an entry; it is split at its FIRST `=` and the left part is
 compared with the key by `==` (exact: no prefix, no trimming, no case folding); the first match returns the right part.
